@@ -1,0 +1,31 @@
+//go:build verif
+
+// Contracts for the deductive verifier under /verif (foxvc): options and routes
+// (properties C19, C13). Comments only.
+
+package fox
+
+//@ package fox
+
+//@ -- ---------------------------------------------------------------- C19: option closures
+
+//@ func WithRedirectTrailingSlash$1 props C19
+//@   implements optionFunc.call
+//@   modifies s.router.redirectTrailingSlash, s.router.ignoreTrailingSlash, s.route.redirectTrailingSlash, s.route.ignoreTrailingSlash
+//@   ensures ok: result == nil
+//@   ensures router: s.router != nil ==> s.router.redirectTrailingSlash == enable && s.router.ignoreTrailingSlash == (enable ? false : old(s.router.ignoreTrailingSlash))
+//@   ensures route: s.route != nil ==> s.route.redirectTrailingSlash == enable && s.route.ignoreTrailingSlash == (enable ? false : old(s.route.ignoreTrailingSlash))
+
+//@ func WithIgnoreTrailingSlash$1 props C19
+//@   implements optionFunc.call
+//@   modifies s.router.redirectTrailingSlash, s.router.ignoreTrailingSlash, s.route.redirectTrailingSlash, s.route.ignoreTrailingSlash
+//@   ensures ok: result == nil
+//@   ensures router: s.router != nil ==> s.router.ignoreTrailingSlash == enable && s.router.redirectTrailingSlash == (enable ? false : old(s.router.redirectTrailingSlash))
+//@   ensures route: s.route != nil ==> s.route.ignoreTrailingSlash == enable && s.route.redirectTrailingSlash == (enable ? false : old(s.route.redirectTrailingSlash))
+
+//@ func WithAnnotation$1 props C19
+//@   implements routeOptionFunc.call
+//@   requires s.route != nil
+//@   modifies s.route.annots, mapof(s.route.annots)
+//@   ensures rejected: !hashable(key) ==> result != nil && errIs(result, ErrInvalidConfig) && s.route.annots == old(s.route.annots)
+//@   ensures stored: hashable(key) ==> result == nil && s.route.annots != nil && s.route.annots[key] == value
